@@ -119,15 +119,17 @@ class CollectorRegistry(Collector):
                 self._names_to_collectors['target_info'] = _EmptyCollector()
             elif self._target_info:
                 self._names_to_collectors.pop('target_info', None)
-            self._target_info = labels
+            # Copy: later changes to the caller's dict must not alter the registry
+            # (emptying it would leave the target_info name reserved with nothing configured).
+            self._target_info = dict(labels) if labels else labels
 
     def get_target_info(self) -> Optional[Dict[str, str]]:
         with self._lock:
-            return self._target_info
+            return dict(self._target_info) if self._target_info else self._target_info
 
     def _target_info_metric(self):
         m = Metric('target', 'Target metadata', 'info')
-        m.add_sample('target_info', self._target_info, 1)
+        m.add_sample('target_info', dict(self._target_info), 1)
         return m
 
     def get_sample_value(self, name: str, labels: Optional[Dict[str, str]] = None) -> Optional[float]:
